@@ -9,6 +9,6 @@ CONSTANTS
   Gen = FALSE
   Dev = "none"
 VIEW mcview
-INVARIANT INV_Read INV_ReadExact INV_Get INV_Head INV_Dump INV_Bad INV_EphNeverStored
+INVARIANT INV_Read INV_ReadExact INV_Get INV_Head INV_Dump INV_Bad INV_EphNeverStored INV_Drained
 PROPERTY C08_NoEarlyLoss C01_AppendIdsIncrease
 CHECK_DEADLOCK FALSE
